@@ -15,7 +15,7 @@ CONSTANTS
   MaxGen = 3
   MaxNotify = 0
   MaxEnds = 0
-  MaxFail = 2
+  MaxFail = 1
   AutoReset = "latest"
   Finite = FALSE
   AutoCkpt = FALSE
@@ -28,6 +28,8 @@ CONSTANTS
   FailSaves = FALSE
   Focus = TRUE
   Record = FALSE
+  Marking = FALSE
+  WindAt = 0
   Gaps = {}
   Bugs = {}
 VIEW view
